@@ -126,14 +126,17 @@ func LayerConvertFuncWithCompressionLevel(compressionLevel zstd.EncoderLevel, op
 		defer uncompressedReaderAt.Close()
 		uncompressedSR := io.NewSectionReader(uncompressedReaderAt, 0, uncompressedDesc.Size)
 		metadata := make(map[string]string)
-		opts = append(opts, estargz.WithCompression(&zstdCompression{
+		// opts is shared by all (concurrent) calls of this ConvertFunc: never append to it in place
+		buildOpts := make([]estargz.Option, 0, len(opts)+2)
+		buildOpts = append(buildOpts, opts...)
+		buildOpts = append(buildOpts, estargz.WithCompression(&zstdCompression{
 			new(zstdchunked.Decompressor),
 			&zstdchunked.Compressor{
 				CompressionLevel: compressionLevel,
 				Metadata:         metadata,
 			},
-		}))
-		blob, err := estargz.Build(uncompressedSR, append(opts, estargz.WithContext(ctx))...)
+		}), estargz.WithContext(ctx))
+		blob, err := estargz.Build(uncompressedSR, buildOpts...)
 		if err != nil {
 			return nil, err
 		}
